@@ -54,9 +54,10 @@ def operation(func, o1, o2, reindex=True, broadcast=True, constructor=None):
     # both objects are dimarrays
 
     # check grid mapping and emit a warning if mismatch
-    if hasattr(o1, 'grid_mapping') and hasattr(o2, 'grid_mapping') \
-            and o1.grid_mapping != o2.grid_mapping:
-                warnings.warn("binary op : grid mappings mismatch")
+    # (looked up in the metadata: as an attribute, 'grid_mapping' could also be a dimension's labels)
+    gm1, gm2 = o1.attrs.get('grid_mapping'), o2.attrs.get('grid_mapping')
+    if gm1 is not None and gm2 is not None and not np.array_equal(gm1, gm2):
+        warnings.warn("binary op : grid mappings mismatch")
 
     # Align axes by re-indexing
     if reindex:
